@@ -53,7 +53,7 @@ def main():
         res["demo_with"] = r1.returncode
         res["demo_output"] = (r1.stdout + r1.stderr)[-400:]
         res["baseline_missing"] = muttest.baseline_ok(wt)
-        sh(f"rsync -a --exclude .git --exclude replays {VERIF}/ {vc}/")
+        sh(f"rsync -a --exclude .git --exclude replays --exclude corpus {VERIF}/ {vc}/")
         cenv = dict(os.environ, PDT_REPO=str(wt))
         for prop in props:
             r = subprocess.run([str(vc / "check"), prop, tier], capture_output=True, text=True, env=cenv, cwd=vc)
@@ -65,6 +65,24 @@ def main():
                     d = json.load(open(rp))
                     detail = {"what": d.get("what"), "kind": d.get("kind"),
                               "broken": sorted({b["kind"] for b in d.get("broken", [])})}
+            # a failing input is only worth something if it replays: it must fail on the changed tree and pass on
+            # the unchanged one; such inputs become the regression corpus every run of the check replays first
+            if detail.get("kind") == "failing-input":
+                rw = subprocess.run([str(vc / "check"), prop, "--replay", str(rp)], capture_output=True, text=True,
+                                    env=cenv, cwd=vc)
+                rc_ = subprocess.run([str(vc / "check"), prop, "--replay", str(rp)], capture_output=True, text=True,
+                                     env=dict(os.environ, PDT_REPO="/repo"), cwd=vc)
+                detail["replay_with_change"] = rw.returncode
+                detail["replay_unchanged"] = rc_.returncode
+                if rw.returncode == 1 and rc_.returncode == 0:
+                    blob = json.dumps(d.get("input"))
+                    if len(blob) < 60000:
+                        cdir = VERIF / "corpus" / prop
+                        cdir.mkdir(parents=True, exist_ok=True)
+                        keep = {k: v for k, v in d.items() if k not in ("broken", "translator_differs_from_committed")}
+                        keep["observed"] = str(keep.get("observed"))[:300]
+                        keep["expected"] = str(keep.get("expected"))[:300]
+                        (cdir / f"{sid}.json").write_text(json.dumps(dict(keep, from_seed=sid)) + "\n")
             res["checks"][prop] = {"rc": r.returncode, "line": line[:1], **detail}
     finally:
         sh(f"git -C /repo worktree remove --force {wt}")
